@@ -68,6 +68,8 @@ func c15Cars() map[string]cargen.Shape {
 	frames.Blocks[0].Rewards = &cargen.PayloadShape{Pad: 300, FrameSize: 150}
 	frames.Blocks = append(frames.Blocks, blk(9, tx(1)))
 	m["frames+rewards"] = frames
+	// the same kind of file with section-length prefixes that take more bytes than needed (every second one)
+	m["padded-length-prefixes"] = cargen.Shape{Epoch: 1, PaddedLengths: 2, Blocks: []cargen.BlockShape{blk(1, tx(1)), blk(2, tx(2))}}
 	return m
 }
 
@@ -212,7 +214,7 @@ func c15Class(got []c15Group, want string) string {
 func TestVerif_C15(t *testing.T) {
 	R := vkit.New("C15")
 	defer R.Finish()
-	R.Rule = "scenario = generated CAR (7 layouts: no block, blocks with 0..3 children, more children than the preallocation, trailing non-block objects, multi-frame payloads and rewards) x ignore-set (all 32 subsets of {Entry,Rewards,DataFrame,Subset,Epoch}) x skip {0,1} x consumer callback with 0..2 scheduling points, with and without appending the parent to the children slice it was given; for each scenario every interleaving of the reading and the consuming goroutine is executed on the instrumented accumulator (queue capacity 1, preallocation 2) with happens-before state pruning; oracle = delivered (parent, children) groups with offsets, section lengths and content hashes equal to the generator's ground truth, unchanged until the callback returns, and Run terminates; non-trivial = more than 2 context switches"
+	R.Rule = "scenario = generated CAR (8 layouts: no block, blocks with 0..3 children, more children than the preallocation, trailing non-block objects, multi-frame payloads and rewards, section-length prefixes longer than needed) x ignore-set (all 32 subsets of {Entry,Rewards,DataFrame,Subset,Epoch}) x skip {0,1} x consumer callback with 0..2 scheduling points, with and without appending the parent to the children slice it was given; for each scenario every interleaving of the reading and the consuming goroutine is executed on the instrumented accumulator (queue capacity 1, preallocation 2) with happens-before state pruning; oracle = delivered (parent, children) groups with offsets, section lengths and content hashes equal to the generator's ground truth, unchanged until the callback returns, and Run terminates; non-trivial = more than 2 context switches"
 	R.Assume("flush queue capacity and children preallocation are shrunk (1 and 2) so that back-pressure and reallocation happen on small CARs; the CAR reader itself has no scheduling points (runs atomically between channel operations)")
 	if u := vkitEnv("VERIF_UNMATCHED_RULES"); u != "" {
 		R.Note("shrinking rules that no longer match (real constants kept): %s", u)
